@@ -104,3 +104,39 @@ def gen_random(rng, sid, nev, nas, weights=None, respinfo=None):
     s.add("flush", {"e": "flush"})
     s.add("stop")
     return s
+
+
+# (function, args, response size, answer type, answer data): requests with different worst-case answer sizes
+PRESSURE = [("bidib_send_sys_get_magic", lambda r: [], 6, 0x81, [0xFE, 0xAF]), ("bidib_send_sys_ping", lambda r: [_b(r)], 5, 0x82, [1]),
+            ("bidib_send_sys_get_unique_id", lambda r: [], 11, 0x84, [0, 0, 13, 1, 2, 3, 4]), ("bidib_send_feature_get", lambda r: [_b(r)], 6, 0x90, [1, 2]),
+            ("bidib_send_bm_get_range", lambda r: [0, 16], 21, 0xa2, [0, 8, 0]), ("bidib_send_string_get", lambda r: [0, 1], 30, 0x95, [0, 1, 1, 65]),
+            ("bidib_send_vendor_get", lambda r: [1, [65]], 32, 0x93, [1, 65, 1, 66]), ("bidib_send_bm_mirror_occ", lambda r: [_b(r)], 0, None, None)]
+
+def gen_pressure(rng, sid, nas, rounds=3):
+    """budget pressure: the 48-byte budget of a node is filled exactly or nearly, requests of DIFFERENT answer sizes are held
+    (small ones in front of big ones and the other way round), then the oldest outstanding requests are answered one at a
+    time without letting anything expire: each answer frees room for some of the held requests but not for all of them"""
+    s = Script(sid); session_start(s)
+    for _ in range(rounds):
+        na = rng.choice(nas); a = addr_of(na); used = 0; out = []
+        while True:
+            fn, ag, size, at, ad = rng.choice(PRESSURE)
+            if used + size > 48: break
+            line, ev = ll_line(fn, na, ag(rng)); s.add(line, ev); used += size
+            if size: out.append((at, ad))
+            if len(out) > 12: break
+        held = [rng.choice(PRESSURE) for _ in range(rng.choice([2, 3, 4]))]
+        if rng.random() < 0.5: held.sort(key=lambda x: x[2])                 # small in front of big
+        for fn, ag, size, at, ad in held:
+            line, ev = ll_line(fn, na, ag(rng)); s.add(line, ev)
+            if size: out.append((at, ad))
+        s.add("flush", {"e": "flush"})
+        for at, ad in out[:rng.randrange(1, len(out) + 1)]:
+            line, ev = up_line(a, at, ad); s.add(line, ev)
+            if rng.random() < 0.3: s.add("tick 1", {"e": "tick", "d": 1})
+            if rng.random() < 0.3: s.add("flush", {"e": "flush"})
+        s.add("tick 3", {"e": "tick", "d": 3})
+        line, ev = up_line(a, 0xa0, [0]); s.add(line, ev)
+        s.add("flush", {"e": "flush"})
+    s.add("stop")
+    return s
